@@ -147,6 +147,9 @@ type c06Case struct {
 func c06Sub(mode string) string { return mode[:1] }
 
 func (p c06) Run(w *mon.Worker, idx int) mon.Result {
+	if idx%60 == 59 {
+		return c06ByteStrings(w, idx)
+	}
 	c := c06Gen(w, idx)
 	res := mon.Result{Case: c, Sig: c.sig, Nontrivial: c.nontrivial, Tags: append([]string{"sub:" + c06Sub(c.Mode), "mode:" + c.Mode}, c.tags...)}
 	if c.genErr != "" {
